@@ -89,7 +89,14 @@ def strategy():
             p2 = min(L - rl, max(0, pos + draw(st.integers(-30, 30))))
             recs.append({'name': 'p%d' % j, 'flag': f1, 'tid': tid, 'pos': pos, 'mapq': mapq, 'cigar': '%dM' % rl, 'tags': dict(tags), 'mtid': tid, 'mpos': p2})
             recs.append({'name': 'p%d' % j, 'flag': f2, 'tid': tid, 'pos': p2, 'mapq': mapq, 'cigar': '%dM' % rl, 'tags': dict(tags), 'mtid': tid, 'mpos': pos})
-        return {'contigs': contigs, 'records': recs, 'bin': b, 'maxfrag': maxfrag, 'min_mq': draw(st.sampled_from([50, 50, 20, 0])),
+        unpaired = []
+        for j in range(draw(st.integers(0, 4))):
+            tid = draw(st.integers(0, nc - 1))
+            L = contigs[tid][1]
+            pos = draw(st.integers(0, L - 20))
+            unpaired.append({'name': 'u%d' % j, 'flag': draw(st.sampled_from([0, 16])), 'tid': tid, 'pos': pos, 'mapq': 60, 'cigar': '20M',
+                             'tags': {'SM': 'cell%d' % draw(st.integers(0, 2)), 'DS': pos}, 'mtid': -1, 'mpos': -1})
+        return {'contigs': contigs, 'records': recs, 'unpaired': unpaired, 'bin': b, 'maxfrag': maxfrag, 'min_mq': draw(st.sampled_from([50, 50, 20, 0])),
                 'dedup': draw(st.sampled_from([True, True, False])), 'key_tags': draw(st.sampled_from([None, None, ['DA']])),
                 'pool': draw(st.sampled_from(['det', 'det', 'det', 'real'])), 'threads': draw(st.integers(1, 4)),
                 'order': draw(st.lists(st.integers(0, 1000), min_size=4, max_size=4)),
@@ -131,7 +138,8 @@ def eval_obtain(case):
     out = Outcome()
     contigs = [tuple(c) for c in case['contigs']]
     path = os.path.join(scratch_dir(), 'c12_%d.bam' % os.getpid())
-    write_bam(path, contigs, case['records'])
+    # records that are neither read 1 nor read 2 are present but are no read-1 records: never counted here
+    write_bam(path, contigs, case['records'] + case.get('unpaired', []))
     exp = flat(recount(case))
     results = {}
     boundary = False
